@@ -331,5 +331,5 @@ def run(case, ctx):
 
 
 def parts(tier):
-    return [Part("mutated-traces", run, strategy=lambda ctx: cases(), budget={"quick": 1400, "thorough": 30000},
+    return [Part("mutated-traces", run, strategy=lambda ctx: cases(), budget={"quick": 4000, "thorough": 40000},
                  cap_s={"quick": 400, "thorough": 3400})]
